@@ -8,6 +8,7 @@ CONSTANTS
   Split = FALSE
   PeekStop = FALSE
   WireGaps = FALSE
+  CutStop = FALSE
 SPECIFICATION Spec
 INVARIANT NoStateClobber
 CHECK_DEADLOCK TRUE
